@@ -180,6 +180,9 @@ func (s *pickerSim) apply(op string) (res string) {
 		}
 	}()
 	r := s.applyOp(name, m)
+	if r == "skip" {
+		return r // nothing was called, nothing changed
+	}
 	return r + " " + s.dump()
 }
 
